@@ -78,11 +78,11 @@ pub fn c02_value_datetime(inp: &mut Inp) {
 pub fn c02_value_resolution(inp: &mut Inp) {
     value_total(inp, 0x32, 12)
 }
-//@ {"tier":"quick","unwind":14,"stubs":["lossy_empty","drop_even","drop_odd","bm","reserve"],"desc":"IppValue::parse(0x35 textWithLanguage): every length 0..=8, every body incl. both inner 16-bit lengths","sym":"8 body bytes incl. the two inner length fields; len enumerated 0..=10"}
+//@ {"tier":"quick","unwind":14,"stubs":["lossy_empty","drop_even","drop_odd","bm","reserve","fmt"],"desc":"IppValue::parse(0x35 textWithLanguage): every length 0..=8, every body incl. both inner 16-bit lengths","sym":"8 body bytes incl. the two inner length fields; len enumerated 0..=10"}
 pub fn c02_value_textlang(inp: &mut Inp) {
     value_total_lang(inp, 0x35, 8)
 }
-//@ {"tier":"quick","unwind":14,"stubs":["lossy_empty","drop_even","drop_odd","bm","reserve"],"desc":"IppValue::parse(0x36 nameWithLanguage): every length 0..=8, every body incl. both inner 16-bit lengths","sym":"8 body bytes incl. the two inner length fields; len enumerated 0..=10"}
+//@ {"tier":"quick","unwind":14,"stubs":["lossy_empty","drop_even","drop_odd","bm","reserve","fmt"],"desc":"IppValue::parse(0x36 nameWithLanguage): every length 0..=8, every body incl. both inner 16-bit lengths","sym":"8 body bytes incl. the two inner length fields; len enumerated 0..=10"}
 pub fn c02_value_namelang(inp: &mut Inp) {
     value_total_lang(inp, 0x36, 8)
 }
@@ -110,20 +110,20 @@ fn parse_fixed(inp: &mut Inp, tail: &[u8]) -> bool {
     ok
 }
 
-//@ {"tier":"quick","unwind":3,"mem":28,"stubs":["lossy_ascii","drop_even","drop_odd","bm","block_on","reserve"],"desc":"malformed but token-wise valid message never panics: a collection opened and never closed before the end tag","sym":"8 header bytes"}
+//@ {"tier":"quick","unwind":3,"mem":28,"stubs":["lossy_ascii","drop_even","drop_odd","bm","block_on","reserve","fmt"],"desc":"malformed but token-wise valid message never panics: a collection opened and never closed before the end tag","sym":"8 header bytes"}
 pub fn c02_malformed_unclosed_collection(inp: &mut Inp) {
     // printer group, begCollection "c" (empty value), end of attributes
     parse_fixed(inp, &[0x04, 0x34, 0, 1, b'c', 0, 0, 0x03]);
     reached();
 }
 
-//@ {"tier":"quick","unwind":3,"stubs":["lossy_ascii","drop_even","drop_odd","bm","block_on","reserve"],"desc":"malformed: additional value (empty name) before any attribute and before any group","sym":"8 header bytes"}
+//@ {"tier":"quick","unwind":3,"stubs":["lossy_ascii","drop_even","drop_odd","bm","block_on","reserve","fmt"],"desc":"malformed: additional value (empty name) before any attribute and before any group","sym":"8 header bytes"}
 pub fn c02_malformed_orphan_value(inp: &mut Inp) {
     parse_fixed(inp, &[0x21, 0, 0, 0, 4, 0, 0, 0, 3, 0x03]);
     reached();
 }
 
-//@ {"tier":"thorough","unwind":3,"stubs":["lossy_ascii","drop_even","drop_odd","bm","block_on","reserve"],"desc":"malformed: end-collection without begin; member name outside a collection; collection never closed before another attribute / a new group","sym":"8 header bytes; 4 malformed token sequences enumerated"}
+//@ {"tier":"thorough","unwind":3,"stubs":["lossy_ascii","drop_even","drop_odd","bm","block_on","reserve","fmt"],"desc":"malformed: end-collection without begin; member name outside a collection; collection never closed before another attribute / a new group","sym":"8 header bytes; 4 malformed token sequences enumerated"}
 pub fn c02_malformed_more(inp: &mut Inp) {
     parse_fixed(inp, &[0x04, 0x37, 0, 0, 0, 0, 0x03]);
     parse_fixed(inp, &[0x04, 0x4a, 0, 0, 0, 1, b'm', 0x21, 0, 0, 0, 4, 0, 0, 0, 2, 0x03]);
@@ -169,7 +169,7 @@ pub fn c02_reader_boundary_lengths(inp: &mut Inp) {
     reached();
 }
 
-//@ {"tier":"thorough","unwind":12,"timeout":1500,"desc":"displaying a decoded resolution never panics: any units octet, any feed values","sym":"2 x i32, units i8"}
+//@ {"tier":"quick","unwind":12,"timeout":1500,"desc":"displaying a decoded resolution never panics: any units octet, any feed values","sym":"2 x i32, units i8"}
 pub fn c02_display_resolution(inp: &mut Inp) {
     let v = IppValue::Resolution { cross_feed: inp.i32(), feed: inp.i32(), units: inp.u8() as i8 };
     let s = v.to_string();
